@@ -85,6 +85,13 @@ impl<'a> UnusedLiteralVisitor<'a> {
         line_position.end_offset = line_end;
         line_position.column = 0;
 
+        // The end has moved too (usually to the start of the next
+        // line), so recompute its line and column.
+        line_position.end_line_number =
+            position.line_number + src[line_start..line_end].matches('\n').count();
+        line_position.end_column =
+            line_end - src[..line_end].rfind('\n').map(|pos| pos + 1).unwrap_or(0);
+
         line_position
     }
 }
